@@ -130,6 +130,12 @@ impl Oracle for C01 {
     fn on_state(&self, w: &mut World, _mon: &mut Mon, hist: &[Ev], out: &mut Out) {
         out.distinct.insert(fp64(&crate::world::state_bytes(true)));
         count_shapes(w, hist, out);
+        if w.is_ingesting() {
+            out.count("states_checked_during_a_paused_ingestion");
+            if matches!(hist.last(), Some(Ev::Upgrade { .. })) {
+                out.count("states_checked_after_an_upgrade_during_a_paused_ingestion");
+            }
+        }
         for a in 0..w.book.addrs.len() {
             for l in &self.limits {
                 check_address(w, a, *l, out, "");
@@ -264,6 +270,28 @@ pub fn run(tier: &str) -> i32 {
                    "max_non_default_bodies": sp, "page_limits": limits.iter().map(|l| l.unwrap_or(1000)).collect::<Vec<_>>()}),
         );
     }
+    // the same statement on the states in the middle of a sliced ingestion and after an
+    // upgrade at any message boundary (including between two slices of a block)
+    for (theta, n) in if quick { vec![(1u32, 3usize)] } else { vec![(1, 4), (2, 4)] } {
+        let mut alpha = ledger_alphabet(n, &[1], 2);
+        alpha.bodies = vec![BODY_CB, BODY_MULTI, BODY_SPEND_PARENT, BODY_CHAIN];
+        alpha.budgets = vec![0, 1, 2];
+        alpha.upgrades = vec![0];
+        alpha.max_upgrades = 1;
+        let m = ChainModel {
+            cfg: WorldCfg::regtest(theta),
+            alpha,
+            oracle: C01 { limits: vec![None, Some(2)] },
+        };
+        let e = explore(&m, &Limits::new(2, if quick { 300 } else { 6000 }));
+        rep.absorb(
+            &format!("LEDGER sliced+upgrade theta={} n={} budgets=[unlimited,1,2] upgrades<=1", theta, n),
+            e,
+            json!({"network": "regtest", "threshold": theta, "max_blocks": n, "ingestion_budgets": [0, 1, 2], "max_upgrades": 1}),
+        );
+    }
+    rep.floor("states_checked_during_a_paused_ingestion", 50);
+    rep.floor("states_checked_after_an_upgrade_during_a_paused_ingestion", 10);
     let sizes: Vec<usize> = if quick { vec![999, 1001] } else { vec![999, 1000, 1001, 2001] };
     big_address_family(&mut rep, &sizes);
     rep.parts.push(json!({"part": "page-size family (real limit 1000)", "outputs": sizes}));
